@@ -95,6 +95,32 @@ def inject(rng, case, victim, fault, hist):
             filler = b"\x17" + ver + rest.to_bytes(2, "big") + bytes(rng.randrange(256) for _ in range(rest))
             pk[i] = rebuild(pk[i], short + filler)
             hist["short-record.n=%d" % n] += 1
+    elif fault == "crafted-initial" and victim.kind == "quic" and data:
+        # 1..3 well-formed Initial datagrams (the Initial keys are public) are added to the victim flow after its handshake: each carries, at the
+        # next offset of that direction's Initial CRYPTO stream, another ServerHello (same or another suite), ClientHello, EncryptedExtensions
+        # or arbitrary handshake bytes -- the keys are installed a second time, whatever key updates have happened in between
+        from ref import quic_ref as Q
+        c = victim.s.conn
+        for _ in range(rng.choice([1, 1, 2, 3])):
+            srv = bool(rng.randrange(3))
+            what = rng.choice(["server-hello", "server-hello-other-suite", "client-hello", "encrypted-extensions", "random"])
+            if what == "server-hello-other-suite":
+                keep = c.suite
+                c.suite = rng.choice([x for x in (0x1301, 0x1302, 0x1303, 0x1304, 0x1305) if x != keep])
+                msg = c.server_hello()
+                c.suite = keep
+            else:
+                msg = {"server-hello": c.server_hello, "client-hello": c.client_hello, "encrypted-extensions": lambda: Q.hs_msg(8, b"\x00\x00"),
+                       "random": lambda: bytes([rng.choice([1, 2, 8, 11, 20])]) + bytes(rng.randrange(256) for _ in range(rng.choice([3, 40, 90])))}[what]()
+            off = c.crypto_off.get(("initial", srv), 0)
+            c.crypto_off[("initial", srv)] = off + len(msg)
+            body = c.packet("initial", srv, [Q.f_crypto(off, msg)], pn=c.pn.get(("i", srv), 0) + rng.choice([0, 7, 1000]), pn_len=4)
+            a, b = (victim.server, victim.client) if srv else (victim.client, victim.server)
+            later = [i for i in data if i >= data[len(data) // 3]]
+            i = rng.choice(later) + 1
+            pk.insert(i, {"ts": pk[i - 1]["ts"], "frame": synth.udp_frame(a.mac, b.mac, a.ip, b.ip, a.port, b.port, body), "isserver": srv, "len": 0})
+            data = [j if j < i else j + 1 for j in data]
+            hist["crafted-initial=%s" % what] += 1
     elif fault == "foreign-http":
         nz = pool.noise(rng, collections.Counter(), idx=9)
         while not nz.packets or readback.parse_frame(nz.packets[0]["frame"])["kind"] != "tcp":
@@ -164,7 +190,8 @@ def main():
     fails, disagreements, known = [], [], []
     n = 10 if ck.tier == "quick" else 150
     n_model = 16 if ck.tier == "quick" else 200
-    faults = ["delete-packet", "cut-before", "cut-after", "remove-keys", "random-keys", "unknown-suite", "flip-bit", "overwrite", "shorten", "short-record", "short-record", "short-record", "foreign-http", "foreign-udp"]
+    n_crafted_model = 8 if ck.tier == "quick" else 80
+    faults = ["delete-packet", "cut-before", "cut-after", "remove-keys", "random-keys", "unknown-suite", "flip-bit", "overwrite", "shorten", "short-record", "short-record", "short-record", "foreign-http", "foreign-udp", "crafted-initial", "crafted-initial"]
     for i in range(n):
         conns = []
         k = rng.choice([2, 3, 4])
@@ -177,6 +204,10 @@ def main():
         if i % 3 == 0:
             # a QUIC connection whose client uses a zero-length connection ID (what browsers do): nothing but addresses identifies its datagrams
             conns.append(pool.quic_conn(rng, hist, idx=k + 2, napp=6, client_cid_len=0, server_cid_len=rng.choice([0, 8])))
+        # always one QUIC connection with several key updates (target of the crafted-initial fault)
+        qv = pool.quic_conn(rng, hist, idx=k + 3, napp=rng.choice([12, 25]), key_updates=3, retry=bool(rng.randrange(3) == 0))
+        qv.many_updates = True
+        conns.append(qv)
         # always one TLS <= 1.2 connection whose application records travel in segments of their own (target of the short-record fault)
         code = rng.choice([0x002F, 0xC02F, 0xC030, 0x009C, 0xCCA8, 0x003C, 0x000A, 0xC0AC])
         from ref import iana_ref, tls_ref
@@ -198,6 +229,8 @@ def main():
                 victim = tl[0]
             if fault == "short-record":
                 victim = conns[-1]
+            if fault == "crafted-initial":
+                victim = next(c for c in conns if c.kind == "quic" and getattr(c, "many_updates", False))
             pk, keylog = inject(rng, case, victim, fault, hist)
             cap = capgen.to_pcapng(pk)
             hist["fault=%s/%s" % (fault, victim.kind)] += 1
@@ -249,8 +282,11 @@ def main():
             elif tag:
                 known.append(rec)
             ck.case(("c03", i, fault, cap[-50:]), sample=({"fault": fault, "victim": victim.kind, "connections": [c.kind for c in conns]} if ck.cov["evaluations"] % 19 == 0 else None))
-            if m and n_model > 0 and len(pk) <= 400:
-                n_model -= 1
+            if m and len(pk) <= 400 and (n_model > 0 or (fault == "crafted-initial" and n_crafted_model > 0)):
+                if fault == "crafted-initial" and n_crafted_model > 0:
+                    n_crafted_model -= 1
+                else:
+                    n_model -= 1
                 mt = tlsgen.canon_model(m.ask("run_file", options_arg(meta=bool(args)), impl.secrets_arg(keylog), impl.items_arg(cap)))
                 hist["model_runs"] += 1
                 if mt != it:
@@ -263,7 +299,8 @@ def main():
     ck.cov["traces_validated_against_impl"] = hist["model_runs"]
     ck.cov["rule"] = ("captures of 2..4 interleaved healthy TLS/QUIC connections; one victim flow gets one fault from {delete a packet, cut its capture before/after a packet, "
                       "remove a subset of its key-log lines, replace its secrets by random ones, overwrite the suite id in its ServerHello, flip a bit / overwrite bytes / shorten a "
-                      "TCP or UDP payload} or foreign traffic is added {plain HTTP on a watched port, arbitrary UDP payloads of 1..1500 bytes incl. QUIC-looking ones}; the run must "
+                      "TCP or UDP payload} or foreign traffic is added {plain HTTP on a watched port, arbitrary UDP payloads of 1..1500 bytes incl. QUIC-looking ones, well-formed Initial "
+                      "datagrams with further hello messages inside a QUIC victim that has done key updates}; the run must "
                       "complete, every bystander flow must be exported exactly as without the fault, no new flow may appear, and for information-removing faults the victim's "
                       "stream per direction must be a prefix of its plaintext (TLS) / its datagrams a prefix of the datagrams sent (QUIC)")
     ck.cov["dimension_histogram"] = dict(sorted(hist.items()))
